@@ -93,6 +93,18 @@ def run(chk):
                         classify=lambda why: "invalid-or-duplicate-name")
             attempt("rename:non-identifier", lambda: g0.rename_demes({names[0]: rng.choice(["not valid", "1x", ""])}),
                     [base, names[0]], classify=lambda why: "invalid-name")
+    # documents whose demes / pulses take one list object from the top-level defaults (shared after resolution), renamed
+    # with chains and swaps
+    from props import c15 as _c15
+    for i in range(10 if chk.tier == "quick" else 80):
+        d = gen.shared_defaults_family(rng)
+        gs = attempt("fromdict:shared-defaults", lambda: demes.Graph.fromdict(copy.deepcopy(d)), d)
+        if gs is None:
+            continue
+        nms = [x.name for x in gs.demes]
+        for nm in _c15.maps_for(rng, nms, False):
+            attempt("rename:shared-lists", lambda: gs.rename_demes(nm), [d, list(nm.items())],
+                    classify=lambda why: "invalid-or-duplicate-name")
     for i in range(n):
         cmd, _ = gen_ms.gen_ms(rng)
         N0 = rng.choice([1, 100, 1e4, 0.37])
